@@ -1,13 +1,14 @@
 import Tally.Generated.Facts
 /-! Tie for C08: the order of operations of the root's `Close` (CAS, close(done), wait for the loop
-goroutine, final report, purge, reporter close), of the loop's closed check and of a report-and-flush,
+goroutine, final pass, purge, Flush, reporter close — the flush comes AFTER the purge since repair D14), of the
+loop's closed check and of a periodic report-and-flush,
 re-checked against the current source. -/
 namespace Tally.Tie.C08
 open Tally
 
 theorem close_order :
-    Facts.scopeCloseOps = ["s.closed.CAS(false, true)", "close(s.done)", "s.wg.Wait()", "s.reportRegistry()",
-      "s.registry.purge()", "closer.Close()"] := rfl
+    Facts.scopeCloseOps = ["s.closed.CAS(false, true)", "close(s.done)", "s.wg.Wait()", "s.registry.Report(s.reporter)",
+      "s.registry.CachedReport()", "s.registry.purge()", "s.baseReporter.Flush()", "closer.Close()"] := rfl
 theorem close_guards : Facts.scopeCloseGuards = ["!s.closed.CAS(false, true)", "s.root"] := rfl
 theorem loop_checks_closed_first : Facts.reportLoopRunOps = ["s.closed.Load()", "s.reportRegistry()"] := rfl
 theorem report_then_flush :
